@@ -48,7 +48,7 @@ def _explore_worker(i):
     # vacuity canary on the quantifier-free projection of each path condition (decidable, fast)
     can = [verify.smt2_of([h for h in pc if not _has_quant(h)], z3.BoolVal(False)) for pc, ended, prefix in r.canary if pc]
     return {'i': i, 'paths': r.paths, 'exc_paths': r.exc_paths, 'undecided': r.undecided_reason, 'gen_s': r.gen_s,
-            'obls': obls, 'canary': can}
+            'obls': obls, 'canary': can, 'loopsig': getattr(r, 'loopsig', '')}
 
 
 def _lemma_worker(i):
@@ -57,8 +57,22 @@ def _lemma_worker(i):
     return {'i': i, 'smt2': verify.smt2_of(hyps, goal)}
 
 
+class CaseTimeout(BaseException):
+    """one case of the bounded stand-in ran longer than the per-case limit (the code under test does not seem to terminate on it).
+    A BaseException: the `except Exception` clauses of the native contracts (which turn exceptions of the code into violations) must not
+    swallow it - the stand-in ends here."""
+
+
+CASE_LIMIT = {'quick': 600, 'thorough': 1800}      # seconds per bounded case (cases normally take milliseconds to seconds)
+if os.environ.get('VERIF_CASE_LIMIT'):             # (debugging the watchdog itself)
+    CASE_LIMIT = {'quick': int(os.environ['VERIF_CASE_LIMIT']), 'thorough': int(os.environ['VERIF_CASE_LIMIT'])}
+
+
 class Emit:
     """Handed to contracts.<prop>.refute(): counts evaluations, distinct non-trivial cases, samples, violations."""
+
+    case_limit = 0
+    current = None
 
     def __init__(self, maxviol=5):
         self.evaluations = 0
@@ -72,6 +86,10 @@ class Emit:
 
     def case(self, key, nontrivial=True, contract=None):
         self.evaluations += 1
+        self.current = key
+        if self.case_limit:
+            import signal
+            signal.alarm(self.case_limit)         # re-armed by every case: fires only if ONE case runs that long
         if nontrivial:
             h = hashlib.blake2b(repr(key).encode(), digest_size=8).digest()
             self.nontrivial.add(h)
@@ -120,6 +138,12 @@ class Report:
     def checker_error(self, msg):
         self.errors.append(msg)
 
+    @property
+    def loopsigs(self):
+        if not hasattr(self, '_loopsigs'):
+            self._loopsigs = {}
+        return self._loopsigs
+
     # ------------------------------------------------------------------ PROVE
     def prove(self, verify, a):
         global _UNITS, _REPO
@@ -162,6 +186,7 @@ class Report:
                     continue
                 if s['undecided']:
                     self.undecided.append((u.name, s['undecided']))
+                self.loopsigs[u.name] = s.get('loopsig', '')
                 self.units_info.append({'unit': u.name, 'function': u.qualname, 'file': u.path, 'paths': s['paths'], 'raising_paths': s['exc_paths'],
                                         'obligations': len(s['obls']), 'undecided': s['undecided'], 'gen_s': round(s['gen_s'], 2)})
                 for o in s['obls']:
@@ -252,7 +277,28 @@ class Report:
     def refute(self, a):
         t0 = time.time()
         self.emit = Emit()
-        self.mod.refute(self.tier, self.seed, self.emit)
+        import signal
+
+        def _on_alarm(signum, frame):
+            raise CaseTimeout()
+        old = None
+        try:
+            old = signal.signal(signal.SIGALRM, _on_alarm)
+            self.emit.case_limit = CASE_LIMIT[self.tier]
+        except (ValueError, AttributeError):       # not in the main thread / no SIGALRM: no watchdog
+            self.emit.case_limit = 0
+        try:
+            self.mod.refute(self.tier, self.seed, self.emit)
+        except CaseTimeout:
+            lim = self.emit.case_limit
+            self.emit.violations.append({'kind': '__timeout__', 'clause': 'terminates:a-bounded-case-ran-longer-than-%ds' % lim,
+                                         'what': 'the real code did not return within %d s on the bounded case %r (cases of this scope take milliseconds to seconds on the committed tree); the remaining scopes were not run' % (lim, self.emit.current),
+                                         'case': repr(self.emit.current)})
+        finally:
+            if self.emit.case_limit:
+                signal.alarm(0)
+                if old is not None:
+                    signal.signal(signal.SIGALRM, old)
         self.refute_ran = True
         self.refute_wall = time.time() - t0
 
@@ -280,6 +326,12 @@ class Report:
         base_names = (set(base['discharged']) | set(base.get('discharged_thorough', {}))) if base else None
         tier_key = 'discharged' if self.tier == 'quick' else 'discharged_thorough'
         tier_names = set(base[tier_key]) if (base and tier_key in base) else None
+        # loops that have been restructured since the baseline was written (other kind of loop, other loop condition, other set of variables
+        # assigned in the body, a break added or removed): the sidecar's loop invariant was written for another loop, so a refused
+        # establish / preserve obligation says nothing about the property - it is undecided.  Postconditions, frame and exception
+        # obligations of the same unit are judged as always.
+        base_sigs = (base or {}).get('loopsig', {})
+        restructured = set(u for u, sg in self.loopsigs.items() if u in base_sigs and base_sigs[u] != sg)
         rows = self.prove_rows
         n_obl = len(rows)
         n_dis = sum(1 for r in rows if r['status'] == 'unsat')
@@ -304,6 +356,8 @@ class Report:
             if repro:
                 viols.append({'clause': wit.get('clause', r['base']), 'what': msg, 'witness': wit, 'reproduced': True, 'source': 'PROVE counter-model',
                               'obligation': r['uid'], 'solver': r.get('tries')})
+            elif r['kind'] == 'inv' and r.get('unit') in restructured:
+                undecided.append((r['uid'], '%s: the loop has been restructured since the baseline was written (the invariant belongs to another loop) - not comparable' % r['status']))
             elif in_base or (r['kind'] in ('frame', 'exc') and r['status'] == 'sat' and base_names is not None):
                 # (a frame / undocumented-exception obligation exists only when the write / raise is reachable: a counter-model is definite)
                 # an obligation the committed baseline discharges is refused on this run: a counter-model, or no back end
@@ -318,6 +372,9 @@ class Report:
         # 2. bounded stand-in
         if self.emit is not None:
             for w in self.emit.violations:
+                if w.get('kind') == '__timeout__':       # not replayed (it would not return either)
+                    viols.append({'clause': w['clause'], 'what': w['what'], 'witness': w, 'reproduced': False, 'source': 'REFUTE (bounded stand-in), per-case time limit'})
+                    continue
                 try:
                     ok, msg = mod.replay(w)
                 except Exception:
@@ -414,6 +471,9 @@ class Report:
             out = dict(base) if base else {'property': prop, 'discharged': {}}
             out['property'] = prop
             out[tier_key] = names
+            sigs = dict(out.get('loopsig', {}))
+            sigs.update({u: sg for u, sg in self.loopsigs.items() if sg})
+            out['loopsig'] = sigs
             json.dump(out, open(os.path.join(self.root, 'baseline', prop + '.json'), 'w'), indent=1, sort_keys=True)
 
         if not self.selftest:
